@@ -24,6 +24,7 @@ ASSUMPTIONS = ["metaclass __init__ runs for every class statement (language fact
 META = CORE + '_MetaAgent'
 MC = (META, '_components')
 MT = (META, '_tag')
+FC, FT = '_components', '_tag'
 AC = (CORE + 'Agent', 'components')
 
 
@@ -36,7 +37,12 @@ def _rooted_at(t, sym):
 
 
 def run(cx: Cx):
+    global MC, MT, FC, FT
     prog = cx.prog
+    # the private names behind the documented `components` / `tag` views of a class are the implementation's business
+    from .common import backing_field
+    FC, FT = backing_field(cx, META, 'components', '_components'), backing_field(cx, META, 'tag', '_tag')
+    MC, MT = (META, FC), (META, FT)
     meta = prog.cls(META)
     agent = prog.cls(CORE + 'Agent')
     minit = cx.fn(META + '.__init__')
@@ -69,7 +75,7 @@ def run(cx: Cx):
     cx.floor('_MetaAgent.__init__ paths', n, 1)
     for ci in prog.classes.values():
         if prog.metaclass_of(ci) == meta or ci == meta:
-            bad = [k for k in ('_components', '_tag', 'components') if k in ci.class_assigns]
+            bad = [k for k in (FC, FT, 'components') if k in ci.class_assigns]
             if bad and ci != meta:
                 cx.violation('R-SHARED', ci.qualname, 'no-class-body-state',
                              f"class body of {ci.qualname} assigns {bad}: shared with every subclass by attribute lookup",
@@ -121,7 +127,7 @@ def run(cx: Cx):
     for s in cx.effects.sites_of(AC):
         v = s.ev.data.get('value')
         syms = term_symbols(v) if v is not None else set()
-        if any(isinstance(x, Attr) and x.name == '_components' for x in syms):
+        if any(isinstance(x, Attr) and x.name == FC for x in syms):
             cx.violation('R-DISC', s.fn.qualname, 'instance-components-not-seeded-from-class',
                          f"{s.describe()}: an instance's components are built from the class-level store", where=s.where)
     for s in cx.effects.sites_of(MC):
@@ -133,6 +139,28 @@ def run(cx: Cx):
     ainit = cx.fn(CORE + 'Agent.__init__')
     self_s = Sym(ainit.params[0])
     tagp = Sym('tag') if 'tag' in ainit.params else None
+
+    # an instance's tag is given at creation and the framework never rewrites it afterwards ("picking up" the class default later
+    # overwrites an explicit NONE and makes an existing instance follow a later change of its class's default)
+    tsites = cx.effects.sites_of((CORE + 'Agent', 'tag'))
+    late = [s for s in tsites if not all(o == ainit.qualname for o in (s.owners or {s.owner_q}))]
+    if late:
+        cx.violation('R-DISC', late[0].fn.qualname, 'instance-tag-set-at-creation-only',
+                     f"{late[0].describe()}: an agent's own tag is written after its creation - the tag it was created with (an explicit "
+                     f"tag always wins, NONE included) is replaced", where=late[0].where)
+    else:
+        cx.ok('R-DISC', f"an agent's tag is written by Agent.__init__ only ({len(tsites)} site(s))", where=cx.where(ainit), function=ainit.qualname)
+    # changing a class's default tag is always accepted: the setter stores what it is given (a validation of its own refuses the
+    # values Agent.__init__ accepts as explicit tags - IntEnum members, numpy integers, bool)
+    tset = prog.functions.get(META + '.tag#setter')
+    if tset is not None:
+        refusing = [p for p in cx.walker.paths(tset, WalkOptions(unroll=1)) if p.end == 'raise']
+        if refusing:
+            cx.violation('R-GUARD', tset.qualname + '#setter', 'default-tag-change-is-accepted',
+                         f"the setter of a class's default tag raises {refusing[0].last.data.get('exc')} under [{refusing[0].cond!r}]: the "
+                         f"change is refused and new untagged instances keep the old default", where=cx.where(tset, refusing[0].last.line))
+        else:
+            cx.ok('R-GUARD', "the default-tag setter refuses nothing", where=cx.where(tset), function=tset.qualname)
 
     # ------------------------------------------------------------ clause 3: R-DYN + R-NONE
     n = 0
@@ -244,15 +272,15 @@ def run(cx: Cx):
     check_atomic(cx, remc.qualname, ['ComponentNotFoundError'])
     check_atomic(cx, addi.qualname, ['ValueError'])
     check_atomic(cx, remi.qualname, ['ComponentNotFoundError'])
-    for fn, loc, field in ((addc, MC, '_components'), (addi, AC, 'components')):
+    for fn, loc, field in ((addc, MC, FC), (addi, AC, 'components')):
         comp = Sym(fn.params[1])
         check_keyed_insert(cx, fn.qualname, loc, Attr(Sym(fn.params[0]), field), App('type', (comp,)), comp, dup_exc='ValueError')
-    for fn, loc, field in ((remc, MC, '_components'), (remi, AC, 'components')):
+    for fn, loc, field in ((remc, MC, FC), (remi, AC, 'components')):
         check_keyed_delete(cx, fn.qualname, loc, Attr(Sym(fn.params[0]), field), Sym(fn.params[1]), missing_exc='ComponentNotFoundError')
     _lookups(cx)
     _membership(cx)
     from .c13 import check_has_all
-    check_has_all(cx, META + '.has_class_component', '_components')
+    check_has_all(cx, META + '.has_class_component', FC)
     check_has_all(cx, CORE + 'Agent.has_component', 'components')
 
 
@@ -271,7 +299,7 @@ def _lookups(cx: Cx):
     from .common import check_lookup, check_presence_not_truthiness
     gcc = cx.fn(META + '.get_class_component')
     gic = cx.fn(CORE + 'Agent.get_component')
-    check_lookup(cx, gcc.qualname, Attr(Sym(gcc.params[0]), '_components'), Sym(gcc.params[1]), 'ComponentNotFoundError')
+    check_lookup(cx, gcc.qualname, Attr(Sym(gcc.params[0]), FC), Sym(gcc.params[1]), 'ComponentNotFoundError')
     check_lookup(cx, gic.qualname, Attr(Sym(gic.params[0]), 'components'), Sym(gic.params[1]), 'ComponentNotFoundError')
     check_presence_not_truthiness(cx, [gcc.qualname, gic.qualname, META + '.add_class_component', META + '.remove_class_component',
                                        CORE + 'Agent.add_component', CORE + 'Agent.remove_component',
@@ -283,7 +311,7 @@ def _membership(cx: Cx):
     metaclass of its own is still a class, not "an object whose type is meant")."""
     from sa.walker import _Ctx, State
     from sa.terms import f_or, f_and, compare, BoolT, FFalse, AIn
-    for q, field in ((META + '.__contains__', '_components'), (CORE + 'Agent.__contains__', 'components')):
+    for q, field in ((META + '.__contains__', FC), (CORE + 'Agent.__contains__', 'components')):
         fn = cx.fn(q)
         if len(fn.params) < 2:
             continue
